@@ -211,7 +211,9 @@ def direction(repo: Repo) -> RuleRun:
     r.require(uses_order, "EdgeList.add_from_operation: vertex_1/vertex_2 are no longer taken from the beam's corner order")
     for a, b, payload in issued:
         want = defined(payload)
-        r.require({a, b} == set(want), f"Operation.edges puts payload {payload} between corners {a},{b}; it belongs between {want}")
+        if {a, b} != set(want):
+            r.bad(edges, f"Operation.edges attaches the edge data {payload} (defined between corners {want[0]} and {want[1]}) to corners {a},{b}", edges.node, key=f"beam:{want[0]}-{want[1]}")
+            continue
         got = seen.get(repr(payload))
         if got is None:
             r.bad(edges, f"payload {payload} (between corners {want}) is lost: get_all_beams does not return it", edges.node, key=f"beam:{want[0]}-{want[1]}")
@@ -243,7 +245,10 @@ def reversal(repo: Repo) -> RuleRun:
             continue
         a = m.node.args
         required = len(a.args) - 1 - len(a.defaults)
-        if required != 0:
+        extra_args = []
+        if required == 1 and a.args[1].annotation is not None and ast.unparse(a.args[1].annotation) == "int":
+            extra_args = [1]
+        elif required != 0:
             continue
         face = sym_face(repo)
         edges = [Obj(f"E{i}") for i in range(4)]
@@ -263,7 +268,7 @@ def reversal(repo: Repo) -> RuleRun:
             return NO_MATCH
 
         try:
-            Evaluator(repo=repo, module=m.module, call_hook=hook).call_funcinfo(m, [face])
+            Evaluator(repo=repo, module=m.module, call_hook=hook).call_funcinfo(m, [face, *extra_args])
         except (NotEvaluable, Raised):
             continue  # geometric method (normal, center, copy ...): not a re-indexing
         examined += 1
